@@ -357,6 +357,8 @@ package bigbuff
 //@   requires instance : x != nil && fn != nil && x.stop != nil && x.done != nil && !closed(x.done)
 //@   at-call dynamic#0 stopchan : arg0 == x.stop
 //@   at-call builtin.close#0 donechan : arg0 == x.done
+//@   # wait() holds x.mu while it waits for this goroutine to close done: the instance must never wait for x.mu
+//@   never-locks nomu : x.mu
 
 // ---------------------------------------------------------------------------------------------------
 // C20 — LinearAttempt (attempt.go)
